@@ -150,12 +150,13 @@ theorem type_infer_loop_terminates (ctx : Ctx) (fuel : Nat) (t t' : Skel) (T : T
   · intro hc; cases hc
   · rw [hτ]; intro hc; cases hc
 
-/-- `erasure_recovery_partial`: if `t` is well typed, fully annotated without reserved type variable names, and the
-context declares its variables, then from the erasure that drops only the variable types (constant and
-binder types kept) `type_infer` returns exactly `t`.  Partial: for the deeper erasure levels
-"recovers `t` or reports under-determined" (principality) is not proved; the harness checks it against
-a reference unifier. -/
-theorem erasure_recovery_partial (ctx : Ctx) (t : Skel) (T : Ty) (hf : t.FullyTyped) (hr : t.NoReserved)
+/-- `erasure_recovery`: if `t` is well typed, fully annotated without reserved type variable names, and the
+context declares its variables, then from the erasure that drops the variable types (constant and binder
+types kept) `type_infer` returns exactly `t` (for every fuel above some bound: no internal variable is ever
+created, every `unify` is between equal types).  This is the clause "always recovers the original if constant
+and binder types were kept".  For the deeper erasure levels see `unify_complete` / `unify_most_general`
+(Props2.lean); principality of the whole traversal is not proved. -/
+theorem erasure_recovery (ctx : Ctx) (t : Skel) (T : Ty) (hf : t.FullyTyped) (hr : t.NoReserved)
     (hd : t.Declared ctx) (hc : checkedGetType t [] = some T) :
     ∃ N, ∀ fuel, N ≤ fuel → typeInfer ctx fuel true t.eraseVars = .ok t :=
   typeInfer_recover ctx t T hf hr hd hc
